@@ -3,6 +3,7 @@
   (`Inv ∧ KeysWf ∧ SortedKids`); loop invariant `MoveInv` of `moveLoop`.
 -/
 import Rivia.Lemmas.InvBOps
+import Rivia.Lemmas.MovedEntry
 
 set_option linter.unusedSimpArgs false
 namespace Rivia.Lemmas.InvB
@@ -85,7 +86,7 @@ theorem MoveInv.step {S D : FsPath} {E E' : FsPath → Option Entry} {F F' : FsP
     {w : FsPath} {W : List FsPath} {r : FsPath} {e : Entry}
     (hS1 : ¬ S <+: D) (hS2 : ¬ D <+: S) (hD : ∀ n ∈ D, BodyPiece n)
     (h : MoveInv S D E F (w :: W)) (hw : w = S ++ r) (he : E w = some e)
-    (hE : ∀ k, E' k = if k = D ++ r then some { e with path := D ++ r } else if k = w then none else E k)
+    (hE : ∀ k, E' k = if k = D ++ r then some { e with path := D ++ r, rel := movedRel e (D ++ r) } else if k = w then none else E k)
     (hF : ∀ k, F' k = if k = D ++ r then F w else if k = w then none else F k) :
     MoveInv S D E' F' ((kidsOf w e).reverse ++ W) := by
   have hdisj := append_ne_append hS1 hS2
@@ -98,7 +99,7 @@ theorem MoveInv.step {S D : FsPath} {E E' : FsPath → Option Entry} {F F' : FsP
   have hEwd : E w.dropLast = none := h.wparentGone w (by simp)
   have hwW : w ∉ W := (List.nodup_cons.1 h.wnodup).1
   have hWnd : W.Nodup := (List.nodup_cons.1 h.wnodup).2
-  have key : ∀ k x, E' k = some x → (k = D ++ r ∧ x = { e with path := D ++ r }) ∨ (k ≠ D ++ r ∧ k ≠ w ∧ E k = some x) := by
+  have key : ∀ k x, E' k = some x → (k = D ++ r ∧ x = { e with path := D ++ r, rel := movedRel e (D ++ r) }) ∨ (k ≠ D ++ r ∧ k ≠ w ∧ E k = some x) := by
     intro k x hk
     rw [hE] at hk
     by_cases h1 : k = D ++ r
@@ -115,7 +116,7 @@ theorem MoveInv.step {S D : FsPath} {E E' : FsPath → Option Entry} {F F' : FsP
     · rw [if_neg h3, if_neg h1]; exact h2
   have same : ∀ k, k ≠ w → k ≠ D ++ r → E' k = E k := by
     intro k h1 h2; rw [hE, if_neg h2, if_neg h1]
-  have hEw'' : E' (D ++ r) = some { e with path := D ++ r } := by rw [hE, if_pos rfl]
+  have hEw'' : E' (D ++ r) = some { e with path := D ++ r, rel := movedRel e (D ++ r) } := by rw [hE, if_pos rfl]
   have hE'w : E' w = none := by rw [hE, if_neg hww', if_pos rfl]
   -- facts about children of `w`
   have kid_exists : ∀ fs n, e.files = some fs → n ∈ fs → (E (w ++ [n])).isSome = true := by
@@ -214,7 +215,7 @@ theorem MoveInv.step {S D : FsPath} {E E' : FsPath → Option Entry} {F F' : FsP
       have : r1 = r ++ [n] := List.append_cancel_left h2
       subst this
       obtain ⟨g1, g2⟩ := e_real fs n hf hn
-      refine ⟨{ e with path := D ++ r }, fs, ?_, g1, g2, hf, ?_⟩
+      refine ⟨{ e with path := D ++ r, rel := movedRel e (D ++ r) }, fs, ?_, g1, g2, hf, ?_⟩
       · rw [List.dropLast_concat]; exact hEw''
       · rw [← List.append_assoc, baseName_snoc]; exact hn
     · obtain ⟨pe, fs, g1, g2, g3, g4, g5⟩ := h.wparent r1 (List.mem_cons_of_mem _ h1)
@@ -323,7 +324,7 @@ theorem MoveInv.first {S D : FsPath} {E E1 : FsPath → Option Entry} {F F1 : Fs
     (he : E S = some e)
     (hdd : ∃ x, E D.dropLast = some x ∧ x.dir = true ∧ x.link = false)
     (hDfree : ∀ x, E D = some x → x.files = none)
-    (hE1D : E1 D = some { e with path := D }) (hE1S : E1 S = none)
+    (hE1D : E1 D = some { e with path := D, rel := movedRel e D }) (hE1S : E1 S = none)
     (hU : ∀ k x, E1 k = some x → k ≠ D → ∃ o, E k = some o ∧ k ≠ S ∧ x.path = o.path ∧ x.dir = o.dir ∧
       x.link = o.link ∧ x.file = o.file ∧ x.files.isSome = o.files.isSome ∧
       ∀ n, memF x n ↔ (memF o n ∧ ¬ (k = S.dropLast ∧ n = baseName S)) ∨ (k = D.dropLast ∧ n = baseName D))
@@ -406,7 +407,7 @@ theorem MoveInv.first {S D : FsPath} {E E1 : FsPath → Option Entry} {F F1 : Fs
     have : r1 = [n] := List.append_cancel_left h2
     subst this
     obtain ⟨g1, g2⟩ := e_real fs n hf hn
-    refine ⟨{ e with path := D }, fs, ?_, g1, g2, hf, ?_⟩
+    refine ⟨{ e with path := D, rel := movedRel e D }, fs, ?_, g1, g2, hf, ?_⟩
     · simpa using hE1D
     · rw [baseName_snoc]; exact hn
   · intro k x hk hne hkW
@@ -511,14 +512,15 @@ theorem moveLoop_step_eq (S dstRoot : FsPath) (ci : Bool) (hS : S ≠ [])
     (f : Nat) (w : FsPath) (work : List FsPath) (s : State) (e : Entry)
     (hnd : (keys s.entries).Nodup)
     (he : alLookup w s.entries = some e) (hpath : e.path = w) (hw : w ≠ [])
-    (hgone : alLookup w.dropLast s.entries = none) (hne : dstOf dstRoot w (preOf ci S) ≠ w.dropLast) :
+    (hgone : alLookup w.dropLast s.entries = none) (hne : dstOf dstRoot w (preOf ci S) ≠ w.dropLast)
+    (hok : MovedOk e (dstOf dstRoot w (preOf ci S))) :
     moveLoop S dstRoot ci (f + 1) (w :: work) s =
       moveLoop S dstRoot ci f ((kidsOf w e).reverse ++ work)
-        { s with entries := alInsert (dstOf dstRoot w (preOf ci S)) { e with path := dstOf dstRoot w (preOf ci S) } (alErase w s.entries),
+        { s with entries := alInsert (dstOf dstRoot w (preOf ci S)) { e with path := dstOf dstRoot w (preOf ci S), rel := movedRel e (dstOf dstRoot w (preOf ci S)) } (alErase w s.entries),
                  files := match alLookup w s.files with
                    | some b => alInsert (dstOf dstRoot w (preOf ci S)) b (alErase w s.files)
                    | none => alErase w s.files } := by
-  have hlk : alLookup w.dropLast (alInsert (dstOf dstRoot w (preOf ci S)) { e with path := dstOf dstRoot w (preOf ci S) }
+  have hlk : alLookup w.dropLast (alInsert (dstOf dstRoot w (preOf ci S)) { e with path := dstOf dstRoot w (preOf ci S), rel := movedRel e (dstOf dstRoot w (preOf ci S)) }
       (alErase w s.entries)) = none := by
     rw [alLookup_alInsert, if_neg hne, alLookup_alErase _ _ hnd, if_neg (fun hh => dropLast_ne_self hw hh.symm), hgone]
   have hk : ∀ (A : List FsPath) (st : State), A = kidsOf w e →
@@ -526,11 +528,11 @@ theorem moveLoop_step_eq (S dstRoot : FsPath) (ci : Bool) (hS : S ≠ [])
     intro A st hA; rw [hA]
   have hk2 : ∀ x : FsPath, x = w → (match e.files with | some fs => List.map (fun n => x ++ [n]) fs | none => []) = kidsOf w e := by
     intro x hx; subst hx; unfold kidsOf; cases e.files <;> rfl
-  rw [moveLoop]
+  rw [moveLoop_succ_cons]
   cases ci with
   | true =>
-    simp only [if_true, preOf] at hlk ⊢
-    simp only [bind_apply, dirOf_apply, hS, if_false, removeEntry_apply, he, setEntry_apply, removeFile_apply]
+    simp only [if_true, preOf] at hlk hok ⊢
+    simp only [bind_apply, dirOf_apply, hS, if_false, removeEntry_apply, he, movedRelM_ok hok, setEntry_apply, removeFile_apply]
     cases hb : alLookup w s.files with
     | none =>
       simp only [bind_apply, mpure_apply, dirOf_apply, hw, if_false, getEntry_apply, hlk]
@@ -539,8 +541,8 @@ theorem moveLoop_step_eq (S dstRoot : FsPath) (ci : Bool) (hS : S ≠ [])
       simp only [bind_apply, setFile_apply, mpure_apply, dirOf_apply, hw, if_false, getEntry_apply, hlk]
       exact hk _ _ (hk2 _ hpath)
   | false =>
-    simp only [Bool.false_eq_true, if_false, preOf] at hlk ⊢
-    simp only [bind_apply, mpure_apply, removeEntry_apply, he, setEntry_apply, removeFile_apply]
+    simp only [Bool.false_eq_true, if_false, preOf] at hlk hok ⊢
+    simp only [bind_apply, mpure_apply, removeEntry_apply, he, movedRelM_ok hok, setEntry_apply, removeFile_apply]
     cases hb : alLookup w s.files with
     | none =>
       simp only [bind_apply, mpure_apply, dirOf_apply, hw, if_false, getEntry_apply, hlk]
@@ -583,6 +585,7 @@ theorem moveLoop_good (S D dstRoot : FsPath) (ci : Bool) (hS : S ≠ []) (hS1 : 
           exact (append_ne_append hS1 hS2 _ _).symm
         have heq := moveLoop_step_eq S dstRoot ci hS f w work s e hnd he (hM.path w e he) hwne
           (hM.wparentGone w (by simp)) hne
+          (movedOk_of_ne (by rw [hdw]; intro h0; exact hr (List.append_eq_nil_iff.1 h0).2))
         rw [heq] at hh ⊢
         apply ih _ _ _ hh
         rw [hdw]
@@ -646,28 +649,29 @@ theorem moveLoop_first_eq (S dstRoot D : FsPath) (ci : Bool) (hS : S ≠ [])
     (he : alLookup S s.entries = some e) (hpath : e.path = S)
     (hsd : alLookup S.dropLast s.entries = some osd) (hsdD : D ≠ S.dropLast) (hsddir : osd.dir = true)
     (hbase : alLookup D.dropLast (alInsert S.dropLast (dropName (baseName S) osd)
-        (alInsert D { e with path := D } (alErase S s.entries))) = some base)
+        (alInsert D { e with path := D, rel := movedRel e D } (alErase S s.entries))) = some base)
     (hbdir : base.dir = true) (hbf : base.files = some lb) :
     moveLoop S dstRoot ci (f + 1) [S] s =
       moveLoop S dstRoot ci f ((kidsOf S e).reverse ++ [])
         { s with entries := alInsert D.dropLast { base with files := some (insertName (baseName D) lb).2 }
                    (alInsert S.dropLast (dropName (baseName S) osd)
-                     (alInsert D { e with path := D } (alErase S s.entries))),
+                     (alInsert D { e with path := D, rel := movedRel e D } (alErase S s.entries))),
                  files := match alLookup S s.files with
                    | some b => alInsert D b (alErase S s.files)
                    | none => alErase S s.files } := by
-  have hlk : alLookup S.dropLast (alInsert D { e with path := D } (alErase S s.entries)) = some osd := by
+  have hlk : alLookup S.dropLast (alInsert D { e with path := D, rel := movedRel e D } (alErase S s.entries)) = some osd := by
     rw [alLookup_alInsert, if_neg hsdD, alLookup_alErase _ _ hnd, if_neg (fun hh => dropLast_ne_self hS hh.symm), hsd]
   have hk : ∀ (A : List FsPath) (st : State), A = kidsOf S e →
       moveLoop S dstRoot ci f (A.reverse ++ []) st = moveLoop S dstRoot ci f ((kidsOf S e).reverse ++ []) st := by
     intro A st hA; rw [hA]
   have hk2 : ∀ x : FsPath, x = S → (match e.files with | some fs => List.map (fun n => x ++ [n]) fs | none => []) = kidsOf S e := by
     intro x hx; subst hx; unfold kidsOf; cases e.files <;> rfl
-  rw [moveLoop]
+  have hok : MovedOk e D := movedOk_of_ne hD
+  rw [moveLoop_succ_cons]
   cases ci with
   | true =>
     simp only [if_true, preOf] at hDeq ⊢
-    simp only [bind_apply, dirOf_apply, hS, if_false, removeEntry_apply, he, setEntry_apply, removeFile_apply, hDeq]
+    simp only [bind_apply, dirOf_apply, hS, if_false, removeEntry_apply, he, hDeq, movedRelM_ok hok, setEntry_apply, removeFile_apply]
     cases hb : alLookup S s.files with
     | none =>
       simp only [bind_apply, mpure_apply, dirOf_apply, hS, hD, if_false, getEntry_apply, hlk, liftO_apply,
@@ -681,7 +685,7 @@ theorem moveLoop_first_eq (S dstRoot D : FsPath) (ci : Bool) (hS : S ≠ [])
       exact hk _ _ (hk2 _ hpath)
   | false =>
     simp only [Bool.false_eq_true, if_false, preOf] at hDeq ⊢
-    simp only [Bool.false_eq_true, if_false, bind_apply, mpure_apply, removeEntry_apply, he, setEntry_apply, removeFile_apply, hDeq]
+    simp only [Bool.false_eq_true, if_false, bind_apply, mpure_apply, removeEntry_apply, he, hDeq, movedRelM_ok hok, setEntry_apply, removeFile_apply]
     cases hb : alLookup S s.files with
     | none =>
       simp only [bind_apply, mpure_apply, dirOf_apply, hS, hD, if_false, getEntry_apply, hlk, liftO_apply,
@@ -717,12 +721,12 @@ theorem first_state {s : State} (h : InvP s) (hx : ExtS s) {S D : FsPath} {e odd
     (hDover : ∀ x, EL s D = some x → e.file = true ∧ e.link = false) :
     ∃ osd base lb, EL s S.dropLast = some osd ∧ osd.dir = true ∧ D ≠ S.dropLast ∧
       alLookup D.dropLast (alInsert S.dropLast (dropName (baseName S) osd)
-        (alInsert D { e with path := D } (alErase S s.entries))) = some base ∧
+        (alInsert D { e with path := D, rel := movedRel e D } (alErase S s.entries))) = some base ∧
       base.dir = true ∧ base.files = some lb ∧
       MoveInvS S D
         { s with entries := alInsert D.dropLast { base with files := some (insertName (baseName D) lb).2 }
                    (alInsert S.dropLast (dropName (baseName S) osd)
-                     (alInsert D { e with path := D } (alErase S s.entries))),
+                     (alInsert D { e with path := D, rel := movedRel e D } (alErase S s.entries))),
                  files := match alLookup S s.files with
                    | some b => alInsert D b (alErase S s.files)
                    | none => alErase S s.files }
@@ -747,7 +751,7 @@ theorem first_state {s : State} (h : InvP s) (hx : ExtS s) {S D : FsPath} {e odd
   let base : Entry := if D.dropLast = S.dropLast then dropName (baseName S) osd else odd
   let lb : List Str := if D.dropLast = S.dropLast then fss.filter (· ≠ baseName S) else fsd
   have hbase : alLookup D.dropLast (alInsert S.dropLast (dropName (baseName S) osd)
-      (alInsert D { e with path := D } (alErase S s.entries))) = some base := by
+      (alInsert D { e with path := D, rel := movedRel e D } (alErase S s.entries))) = some base := by
     rw [alLookup_alInsert]
     by_cases hc : D.dropLast = S.dropLast
     · rw [if_pos hc.symm]; simp only [base, if_pos hc]
@@ -787,10 +791,10 @@ theorem first_state {s : State} (h : InvP s) (hx : ExtS s) {S D : FsPath} {e odd
   -- the lookup functions of the new state
   have hE1 : ∀ k, alLookup k (alInsert D.dropLast { base with files := some (insertName (baseName D) lb).2 }
       (alInsert S.dropLast (dropName (baseName S) osd)
-        (alInsert D { e with path := D } (alErase S s.entries)))) =
+        (alInsert D { e with path := D, rel := movedRel e D } (alErase S s.entries)))) =
       if k = D.dropLast then some { base with files := some (insertName (baseName D) lb).2 }
       else if k = S.dropLast then some (dropName (baseName S) osd)
-      else if k = D then some { e with path := D }
+      else if k = D then some { e with path := D, rel := movedRel e D }
       else if k = S then none else EL s k := by
     intro k
     rw [alLookup_alInsert, alLookup_alInsert, alLookup_alInsert, alLookup_alErase _ _ hnd]
@@ -808,7 +812,7 @@ theorem first_state {s : State} (h : InvP s) (hx : ExtS s) {S D : FsPath} {e odd
           · rw [if_neg (fun hh => h4 hh.symm), if_neg h4]; rfl
   have hnd1 : (keys (alInsert D.dropLast { base with files := some (insertName (baseName D) lb).2 }
       (alInsert S.dropLast (dropName (baseName S) osd)
-        (alInsert D { e with path := D } (alErase S s.entries))))).Nodup :=
+        (alInsert D { e with path := D, rel := movedRel e D } (alErase S s.entries))))).Nodup :=
     nodup_keys_alInsert _ _ (nodup_keys_alInsert _ _ (nodup_keys_alInsert _ _ (nodup_keys_alErase _ hnd)))
   have hnf0 : (keys (alErase S s.files)).Nodup := nodup_keys_alErase _ hnf
   refine ⟨hnd1, ?_, hroot, hcwd, ?_⟩
